@@ -12,7 +12,7 @@ CLAIMED = {
                 "free dart) preserves the well-formedness predicate WF 3 under the property's argument guard, lifted to every finite "
                 "history by induction; the hand-written model is tied to /repo on every run by an exhaustive small-scope + random "
                 "differential run of the real CMap2 against the compiled model, and the WF predicate is also evaluated on the real map. Props/C01b.lean: whatever the outcome of a transactional call (success, refusal, attribute failure) the state it leaves INSIDE the transaction is well formed, so a user transaction that swallows the refusal and commits publishes a well-formed map (C01_any_outcome_preserves_WF, C01_swallowed_abort_preserves_WF; stream `txi`).",
-        "note": "All four sews of a 2-map (one_sew, one_unsew, two_sew with its orientation test, two_unsew; dim2/sews/one.rs and two.rs) are re-translated too (Gen/Sews2.lean) and proved equal as programs to oneSew2 / oneUnsew2 / twoSew2 / twoUnsew2 (Props/C01Gen2.lean). The six *_core functions of components/betas.rs are RE-TRANSLATED from the source on every run (Gen/LinkCores.lean) and proved equal as programs to the link cores of the model (Props/C01Gen.lean); the rest of the model is hand-written. Trusted: Lean kernel + {propext, Classical.choice, Quot.sound}; the model is hand-written (tie = differential run, "
+        "note": "The PUBLIC API of CMap2 end to end: the dispatch of link / unlink / sew / unsew ::<I> and of the force_ forms (dim2/links/mod.rs, dim2/sews/mod.rs, wrappers of links/one.rs, two.rs) is re-translated (Gen/Dispatch2.lean) and C01.prog, which the history theorem quantifies over, is proved to BE that dispatch into the translated bodies for every I (Props/C01GenApi.lean: C01_gen_api, C01_gen_force_tables). All four sews of a 2-map (one_sew, one_unsew, two_sew with its orientation test, two_unsew; dim2/sews/one.rs and two.rs) are re-translated too (Gen/Sews2.lean) and proved equal as programs to oneSew2 / oneUnsew2 / twoSew2 / twoUnsew2 (Props/C01Gen2.lean). The six *_core functions of components/betas.rs are RE-TRANSLATED from the source on every run (Gen/LinkCores.lean) and proved equal as programs to the link cores of the model (Props/C01Gen.lean); the rest of the model is hand-written. Trusted: Lean kernel + {propext, Classical.choice, Quot.sound}; the model is hand-written (tie = differential run, "
                 "exhaustive for n<=3 darts quick / n<=4 thorough); fast-stm modelled sequentially here (concurrency is C07).",
         "design_ref": "DESIGN.md §7 C01",
     },
@@ -23,7 +23,7 @@ CLAIMED = {
                 "about the CODE (operations write only through their Transaction) is carried by the tie: a fault-injection campaign on "
                 "the real crates (user attribute laws failing at the k-th update, every k) with full before/after snapshots, diffed "
                 "against the model.",
-        "note": "AttrSparseVec::merge / split of attributes/collections.rs (guard, reads, law dispatch table, writes in order) are RE-TRANSLATED from the source on every run (Gen/AttrMoves.lean) and proved equal as programs to mergeS / splitS of the model (Props/C04Gen.lean). Trusted: Lean kernel + 3 standard axioms; the model of fast-stm's log is hand-written; 'operations are closures over "
+        "note": "Every force_ form of the 2-D and 3-D API is checked by the translator to run ONE internal function inside exactly ONE atomically_with_err, the same function as the transactional form (Gen/Dispatch2.lean, Gen/Dispatch3.lean; C01_gen_force_tables, C02_gen_force_tables, C01_gen_api, C02_gen_api), so the theorem about `atomically p` covers the whole public call. AttrSparseVec::merge / split of attributes/collections.rs (guard, reads, law dispatch table, writes in order) are RE-TRANSLATED from the source on every run (Gen/AttrMoves.lean) and proved equal as programs to mergeS / splitS of the model (Props/C04Gen.lean). Trusted: Lean kernel + 3 standard axioms; the model of fast-stm's log is hand-written; 'operations are closures over "
                 "the log' is tested (campaign), not proved; streams: every sew/unsew of every WF 2-map n<=3 x k<=8, transaction "
                 "blocks, 3-map glued-faces family (plain and force_ variants), remeshing kernels.",
         "design_ref": "DESIGN.md §7 C06, §4.1",
@@ -34,7 +34,7 @@ CLAIMED = {
                 "conversely; proved for the sequential semantics and, via T1 (read-your-writes through the transaction log), for the "
                 "log semantics fast-stm implements. Tie: every generated straight-line program is executed on the real crates both ways "
                 "from the same state and compared with each other and with the model.",
-        "note": "Trusted: Lean kernel + 3 standard axioms; hand-written model of the log; that real operations read shared state only "
+        "note": "For the functions under translation (the whole 2-D and 3-D (un)link / (un)sew API down to the cores, the single-vertex insertion kernel: Props/C01GenApi, C02GenApi, C14Gen are obligations of this check) 'every read goes through the transaction' is enforced by the translator on every run: only `beta_transac(trans, ..)` / `.read(trans)` read shapes are accepted, a non-transactional read is a refused shape. Trusted: Lean kernel + 3 standard axioms; hand-written model of the log; that the OTHER real operations read shared state only "
                 "through the transaction is tested by the differential run, not proved (the two exceptions it found — 3-D three_sew/"
                 "three_unsew walking with orbit(), D4, and the vertex-insertion kernels testing spare darts with is_free, D3 — were repaired "
                 "in /repo); streams: 2-D and 3-D core programs, vertex insertion / triangulation kernels, remeshing kernels.",
@@ -59,7 +59,7 @@ CLAIMED = {
                 "numbers of darts ahead or behind) is refused with an error (C02_refusal, C02_refusal_sew) and a refused or failed call "
                 "changes nothing; removed darts are nobody's image. Tie: exhaustive WF 3-maps n<=3, glued-faces family, random and "
                 "polyhedra histories, composed transactions on the real CMap3 vs the model; WF and Mirror evaluated on the real map. Props/C02b.lean: the two extra shape predicates used by the 3-D face clauses of C03/C20 — Sided (a face is 3-linked as a whole) and NoSelfGlue — are NOT invariants under C02's guards alone (decide-checked counterexample histories) and ARE preserved under the additional guard 'a 1-link joins two darts that are both 3-linked or both 3-free' (C02b_history_preserves_all).",
-        "note": "CMap3::three_link / three_unlink of dim3/links/three.rs -- the lock-step walks with BOTH while loops, the mutable pair (lside, rside), every AsymmetricalFaces guard and the assert_eq! -- are re-translated on every run (Gen/Links3Loops.lean, 30 instructions) and proved equal as programs to threeLink3 / threeUnlink3 (Props/C02Gen3.lean: a generic while combinator run with the fuel of the model, whileL_linkBody / whileL_unlinkBody by induction). CMap3::one_link / one_unlink of dim3/links/one.rs are likewise re-translated (Gen/Links3.lean) and proved equal to oneLink3 / oneUnlink3 (Props/C02Gen.lean). The six *_core functions of components/betas.rs are RE-TRANSLATED from the source on every run (Gen/LinkCores.lean) and proved equal as programs to the link cores of the model (Props/C01Gen.lean); the rest of the model is hand-written. Trusted: Lean kernel + 3 standard axioms; hand-written model (Model/Ops3.lean). Defect D1/D1b (three_link accepted "
+        "note": "The PUBLIC API of CMap3 end to end: the dispatch of link / unlink / sew / unsew ::<I> and of their force_ forms (dim3/links/mod.rs, dim3/sews/mod.rs, the wrappers of links/{one,two,three}.rs) is re-translated (Gen/Dispatch3.lean) and Props/C02GenApi.lean proves that the transactional closure C02.prog the history theorems are about IS the translated dispatch into the translated function bodies, for every I (C02_gen_api, C02_gen_force_tables, C02_gen_api_step_preserves_WF). CMap3::three_link / three_unlink of dim3/links/three.rs -- the lock-step walks with BOTH while loops, the mutable pair (lside, rside), every AsymmetricalFaces guard and the assert_eq! -- are re-translated on every run (Gen/Links3Loops.lean, 30 instructions) and proved equal as programs to threeLink3 / threeUnlink3 (Props/C02Gen3.lean: a generic while combinator run with the fuel of the model, whileL_linkBody / whileL_unlinkBody by induction). CMap3::one_link / one_unlink of dim3/links/one.rs are likewise re-translated (Gen/Links3.lean) and proved equal to oneLink3 / oneUnlink3 (Props/C02Gen.lean). The six *_core functions of components/betas.rs are RE-TRANSLATED from the source on every run (Gen/LinkCores.lean) and proved equal as programs to the link cores of the model (Props/C01Gen.lean); the rest of the model is hand-written. Trusted: Lean kernel + 3 standard axioms; hand-written model (Model/Ops3.lean). Defect D1/D1b (three_link accepted "
                 "non-mirrorable faces) found and repaired (243b216).",
         "design_ref": "DESIGN.md §7 C02, §13",
     },
@@ -167,7 +167,7 @@ CLAIMED = {
                 "hypothesis structure: fl(v-v)=0, the (v+u)-v bound, the orientation sign outside an explicit band; skewness in [0,1), "
                 "0 iff equiangular, invariant under rotation/reversal of the corner list and similarities. Tie: ~60 operators run on the "
                 "real crates with exact dyadic inputs vs the model (identical), plus random f32/f64 oracles evaluated with exact Fractions.",
-        "note": "Trusted: Lean kernel + 3 standard axioms; single Mathlib modules in proof files. Props/C19b.lean + Lemmas/Rounding.lean: the "
+        "note": "EVERY arithmetic function and operator impl of honeycomb-core/src/geometry/dim2/{vector,vertex}.rs and dim3/{vector,vertex}.rs (by-value and by-reference Add / Sub / Mul / Div / Neg and their Assign forms, dot, cross_product, the radicand of norm, normal_dir, average, cross_product_from_vertices, the From impls, accessors; Div with its zero-divisor assertion) is RE-TRANSLATED from the source on every run into expression trees per output component (Gen/Geometry.lean) and proved equal, by rfl, to the operator of the model the C19 laws are about (Props/C19Gen.lean: 70 per-function theorems C19_gen_*, plus C19_gen_*_complete fixing the list of impls per file, so that an impl that appears or disappears is noticed); unit_dir (control flow around norm and Div), the marker / attribute impls are pinned textually, not translated. Trusted: Lean kernel + 3 standard axioms; single Mathlib modules in proof files. Props/C19b.lean + Lemmas/Rounding.lean: the "
                 "rounding-model hypothesis is DISCHARGED for idealised IEEE arithmetic — rnd p = round-to-nearest-even to p bits with "
                 "unbounded exponent is odd, monotone, exact on representable numbers, relative error <= 2^-p — so every fl-theorem is "
                 "unconditional for rnd 53 / rnd 24; the real f64/f32 + - * / are compared EXACTLY with rnd (48000 hardware operations per "
@@ -248,7 +248,7 @@ CLAIMED = {
                 "vertex id of the i-th new dart (after repair of D11) and lies strictly between the end points in order over Q. Tie: every "
                 "edge of every WF 2-map n<=3 (+k spare darts, k<=3, natural and permuted order), grids, invalid inputs, tx blocks on the "
                 "real kernels vs the model; oracle: chain of k+1 segments on both sides, positions, frame incl. all images of dart 0. Props/C14c.lean: every old dart keeps its vertex orbit, vertex id and coordinates (in every storage), in particular the two end points.",
-        "note": "Trusted: Lean kernel + 3 standard axioms; hand-written kernel model. Props/C14b.lean: exact b chain after insertion on both "
+        "note": "The single-vertex kernel insert_vertex_on_edge of honeycomb-kernels/src/cell_insertion/vertices.rs (validation prefix with its error variants and messages, both arms, every guarded unlink / link with its argument order, the written value v1 + (v2 - v1) * t / average), its is_free_transac and the dispatch of CMap2::link / unlink ::<I> down to the link cores are RE-TRANSLATED from the source on every run (Gen/VertexInsertion.lean, 36 instructions) and proved equal as a program to insertVertexOnEdge of the model (Props/C14Gen.lean: C14_gen_insertVertexOnEdge, C14_gen_isFreeTx, C14_gen_link_dispatch; corollaries C14_gen_insertVertex_preserves_WF, C14_gen_bound_single). insert_vertices_on_edge (the multi-vertex kernel, with loops) stays hand-written. Trusted: Lean kernel + 3 standard axioms; otherwise hand-written kernel model. Props/C14b.lean: exact b chain after insertion on both "
                 "sides, b2 pairing in reverse order, frame for every other image, new darts in pairwise distinct vertices; Props/C14c.lean: "
                 "every old dart keeps its vertex orbit, id and coordinates (in particular the two end points). Props/C14d.lean: the answer is "
                 "UndefinedEdge exactly when an end point of the edge has no value, and then the map is unchanged "
@@ -286,7 +286,7 @@ CLAIMED = {
                 "1x1..3x3 split grids x swap/cut/collapse, plain/anchored/multi-surface/pre-refined meshes, adaptive histories, tx blocks "
                 "on the real kernels vs the model; independent oracle on exact Fractions (triangles, counts, areas, coordinates, flags, "
                 "anchors, orientation). Props/C15b.lean: b-level topology theorems on arbitrary WF maps for swap (twelve images, frame, triangles), outer and inner cut (spare darts placed as documented, pairings, frame), cells and face iterator after cut_outer_edge, midpoint at the vertex id in the FINAL map, and collapse_edge itself (interior edge, no anchors): WF unconditionally, exactly the six triangle darts flagged and free, neighbours re-glued, frame.",
-        "note": "Props/C15d.lean: anchors after cut_outer_edge / cut_inner_edge as theorems for every subset of the anchor storages (every slot of every storage), the inner cut never succeeds on a map with a VertexAnchor storage (theorem), collapse: no FaceAnchor slot is ever written (root of D15a), end-point target, midpoint vertex count under a hypothesis excluding D15f. Partial: the property is FALSE on the current tree in the recorded ways (known findings D9, D15a, D15d, D15e, D15f, each with a "
+        "note": "swap_edge (remeshing/swap.rs: guards with their error variants, reads, the short-circuit topology test, six unsews and six sews with their argument order), cut_outer_edge and cut_inner_edge (remeshing/cut.rs: 30 and 51 instructions, the anchor reads / writes with the attribute kind inferred from the value type, the midpoint with its retry) and the dispatch of CMap2::sew / unsew ::<I> (dim2/sews/mod.rs) are RE-TRANSLATED from the source on every run (Gen/Remesh.lean) and proved equal as programs to swapEdge / cutOuterEdge / cutInnerEdge of the model (Props/C15Gen.lean: C15_gen_swapEdge, C15_gen_cutOuterEdge, C15_gen_cutInnerEdge, C15_gen_sew_dispatch; corollaries C15_gen_*_preserves_WF, C15_gen_swap_guards); collapse_edge stays hand-written. Props/C15d.lean: anchors after cut_outer_edge / cut_inner_edge as theorems for every subset of the anchor storages (every slot of every storage), the inner cut never succeeds on a map with a VertexAnchor storage (theorem), collapse: no FaceAnchor slot is ever written (root of D15a), end-point target, midpoint vertex count under a hypothesis excluding D15f. Partial: the property is FALSE on the current tree in the recorded ways (known findings D9, D15a, D15d, D15e, D15f, each with a "
                 "structural matcher; D9, D15a,d,e also with decide witnesses in Lean, D15f by replay only; D15b, D15c, D15g repaired). "
                 "C15b: b-level topology of swap/cuts on arbitrary WF maps; C15c: V/E/F counts through the iterators for swap, cuts and the "
                 "interior midpoint collapse, inner-cut cells and final-map midpoint, C15_swap_cells and C15_swap_moves_corners (D9 "
